@@ -452,6 +452,12 @@ func valueFailsWhenNonNil(f *ir.Func, ev ssa.Value, depth int) bool {
 // CheckedCall: fn calls callee with arguments matching argPats on every success path and fails when it
 // returns an error.
 func (c *Ctx) CheckedCall(fnSpec, callee string, argPats []string, desc, role string) {
+	c.CheckedCallOpt(fnSpec, callee, argPats, desc, role, true)
+}
+
+// CheckedCallOpt is CheckedCall; with mustPass=false the call need not lie on every success path (there are
+// legitimate early "nothing to do" exits), but where it is made its error must fail the function.
+func (c *Ctx) CheckedCallOpt(fnSpec, callee string, argPats []string, desc, role string, mustPass bool) {
 	r := "checked/" + callee + role
 	callee = c.X(callee)
 	argPats = c.xs(argPats)
@@ -491,8 +497,12 @@ func (c *Ctx) CheckedCall(fnSpec, callee string, argPats []string, desc, role st
 		c.add("G", fnSpec, r, desc, report.Violated, "error result of "+callee+" does not make the function fail", c.posOf(hits[0]))
 		return
 	}
-	if !c.MustPassAny(f, checked) {
+	if mustPass && !c.MustPassAny(f, checked) {
 		c.add("G", fnSpec, r, desc, report.Violated, "a success path avoids the checked call to "+callee, c.posOf(checked[0]))
+		return
+	}
+	if !mustPass && len(checked) != len(hits) {
+		c.add("G", fnSpec, r, desc, report.Violated, "a call to "+callee+" drops its error", c.posOf(hits[0]))
 		return
 	}
 	c.add("G", fnSpec, r, desc, report.OK, short(f.CalleeName(checked[0])+"("+joinTerms(f.CallArgs(checked[0]))+")"), c.posOf(checked[0]))
@@ -755,4 +765,200 @@ func (c *Ctx) StoreVarUnder(fnSpec, field, pattern, cond, desc string) {
 		return
 	}
 	c.add("G", fnSpec, role, desc, report.OK, fmt.Sprintf("%d store(s)", n), c.fnPos(f))
+}
+
+// LimitChecked (rule kind L): every success exit of fn returns, at result idx, a value V such that either
+//   - a branch to an error exit compares V with the caller's limit (parameter `limit`) on the violating side
+//     (dir "min": fails when V < limit; dir "max": fails when V > limit) and lies on every path to that exit, or
+//   - V is result k of a call that received the limit unchanged as an argument (delegation), or
+//   - V is one of the explicitly allowed neutral values (zero results of early "nothing to do" exits).
+func (c *Ctx) LimitChecked(fnSpec string, idx int, limit, dir string, neutral string, desc string) {
+	role := fmt.Sprintf("limit/%s/ret%d", limit, idx)
+	f := c.Fn(fnSpec)
+	if f == nil {
+		return
+	}
+	fbs := failBranches(f)
+	n := 0
+	for _, b := range f.Fn.Blocks {
+		ret, ok := b.Instrs[len(b.Instrs)-1].(*ssa.Return)
+		if !ok || idx >= len(ret.Results) {
+			continue
+		}
+		k := f.ExitKindOf(b)
+		if k != ir.SuccessExit && k != ir.MaybeExit {
+			continue
+		}
+		if b == f.Fn.Recover {
+			continue
+		}
+		t := f.Term(ret.Results[idx])
+		alts := []*ir.Term{t}
+		if t.Op == "phi" {
+			alts = t.Args
+		}
+		for _, a := range alts {
+			if neutral != "" && ir.MatchAny(neutral, a) {
+				continue
+			}
+			n++
+			okAlt := false
+			// (1) compared with the limit on a failing branch that dominates the return
+			for _, fb := range fbs {
+				if !fb.If.Block().Dominates(b) && !passesThrough(a, fb.If.Block(), b) {
+					continue
+				}
+				cd := fb.Cond
+				if cd.Op != "lt" {
+					continue
+				}
+				lim := &ir.Term{Op: "param", Name: limit}
+				var v, l *ir.Term
+				if dir == "min" { // fails when V < limit
+					v, l = cd.A, cd.B
+				} else { // fails when limit < V
+					v, l = cd.B, cd.A
+				}
+				if ir.Match(lim, l, map[string]*ir.Term{}) && sameOrContains(v, a) {
+					okAlt = true
+				}
+			}
+			// (2) delegation: V = callee(..., limit, ...)#k
+			if !okAlt {
+				base := a
+				for base.Op == "extract" || base.Op == "field" {
+					base = base.Args[0]
+				}
+				if base.Op == "call" {
+					for _, arg := range base.Args {
+						if arg.Op == "param" && arg.Name == limit {
+							okAlt = true
+						}
+						if arg.Op == "phi" { // limit passed on the last hop, a neutral constant before
+							for _, pa := range arg.Args {
+								if pa.Op == "param" && pa.Name == limit {
+									okAlt = true
+								}
+							}
+						}
+					}
+				}
+			}
+			if !okAlt {
+				c.add("L", fnSpec, role, desc, report.Violated, fmt.Sprintf("returned value %s is never compared with %s on a failing branch, nor produced by a callee that received %s", short(a.String()), limit, limit), c.posOf(ret))
+				return
+			}
+		}
+	}
+	if n == 0 {
+		c.add("L", fnSpec, role, desc, report.Violated, "no success exit returning a value", c.fnPos(f))
+		return
+	}
+	c.add("L", fnSpec, role, desc, report.OK, fmt.Sprintf("%d returned value(s) checked against %s", n, limit), c.fnPos(f))
+}
+
+// sameOrContains: compared value v is the returned value a, or a is v.Field / v itself modulo with:-wrappers.
+func sameOrContains(v, a *ir.Term) bool {
+	if v.String() == a.String() {
+		return true
+	}
+	// returned a.Amount while comparing coin.Amount etc. are the same string; returned value may be a phi
+	// alternative of the compared phi
+	if v.Op == "phi" {
+		for _, x := range v.Args {
+			if x.String() == a.String() {
+				return true
+			}
+		}
+	}
+	return false
+}
+
+// passesThrough: every path from the definition of term a's value to block `to` goes through block `via`.
+func passesThrough(a *ir.Term, via, to *ssa.BasicBlock) bool {
+	def, ok := a.V.(ssa.Instruction)
+	if !ok || def.Block() == nil {
+		return false
+	}
+	start := def.Block()
+	if start == via {
+		return true
+	}
+	seen := map[*ssa.BasicBlock]bool{start: true, via: true}
+	work := []*ssa.BasicBlock{start}
+	for len(work) > 0 {
+		x := work[len(work)-1]
+		work = work[:len(work)-1]
+		for _, s := range x.Succs {
+			if s == to {
+				return false
+			}
+			if !seen[s] {
+				seen[s] = true
+				work = append(work, s)
+			}
+		}
+	}
+	return true
+}
+
+// CallArgCase: argument idx of every call to callee is a control-flow join; on the incoming paths where cond is
+// established the joined value matches pattern (and, if only, on no other path).
+func (c *Ctx) CallArgCase(fnSpec, callee string, idx int, cond, pattern string, only bool, desc string) {
+	role := fmt.Sprintf("argcase/%s/arg%d/%s", callee, idx, cond)
+	callee, cond, pattern = c.X(callee), c.X(cond), c.X(pattern)
+	f := c.Fn(fnSpec)
+	if f == nil {
+		return
+	}
+	n := 0
+	for _, call := range c.sites(f, callee) {
+		cc := call.Common()
+		vals := cc.Args
+		if cc.IsInvoke() {
+			vals = append([]ssa.Value{cc.Value}, vals...)
+		}
+		if idx >= len(vals) {
+			continue
+		}
+		phi, ok := vals[idx].(*ssa.Phi)
+		if !ok {
+			c.add("K", fnSpec, role, desc, report.Violated, "argument is not a join of alternatives: "+short(f.Term(vals[idx]).String()), c.posOf(call))
+			return
+		}
+		for i, e := range phi.Edges {
+			pred := phi.Block().Preds[i]
+			under, _ := condHoldsEdge(f, pred, phi.Block(), cond)
+			m := ir.MatchAny(pattern, f.Term(e))
+			if under {
+				n++
+				if !m {
+					c.add("K", fnSpec, role, desc, report.Violated, fmt.Sprintf("under %s the argument is %s, want %s", cond, short(f.Term(e).String()), pattern), c.posOf(call))
+					return
+				}
+			} else if only && m {
+				c.add("K", fnSpec, role, desc, report.Violated, fmt.Sprintf("argument %s also on a path where %s is not established", pattern, cond), c.posOf(call))
+				return
+			}
+		}
+	}
+	if n == 0 {
+		c.add("K", fnSpec, role, desc, report.Violated, "no path establishes "+cond+" before the call", c.fnPos(f))
+		return
+	}
+	c.add("K", fnSpec, role, desc, report.OK, fmt.Sprintf("%d path(s)", n), c.fnPos(f))
+}
+
+// condHoldsEdge: cond is established at the end of pred when control moves to succ (facts at pred plus pred's own branch).
+func condHoldsEdge(f *ir.Func, pred, succ *ssa.BasicBlock, cond string) (bool, string) {
+	if ok, seen := condHolds(f, pred, cond); ok {
+		return true, seen
+	}
+	if iff, ok := pred.Instrs[len(pred.Instrs)-1].(*ssa.If); ok && pred.Succs[0] != pred.Succs[1] {
+		pol := pred.Succs[0] == succ
+		if matchCondAny(cond, Normalize(f.Term(iff.Cond), pol)) {
+			return true, ""
+		}
+	}
+	return false, ""
 }
